@@ -1,6 +1,146 @@
-(* Props/Properties_C06_ascii.v -- ASCII half of C06 (placeholder while the lock step is being brought up). *)
-From Coq Require Import ZArith List.
+(* Props/Properties_C06_ascii.v -- ASCII (.ovm) half of C06: round trip of the native text format.
+   Models: IO/AsciiWriterModel.v (write_ascii = FileManager::writeStream, byte for byte) and IO/AsciiReaderModel.v (read_ascii =
+   FileManager::readStream), both tied to the real library in lock step (lib/checks_ascii.py).
+   Floating point: [print_d] (operator<<(double): "%g", precision 6) and [conv_d] (strtod + libstdc++'s overflow rule) are
+   parameters; what is assumed about them is stated in each theorem.
+
+   THE FULL STATEMENT (C06, ASCII):
+     for every mesh file m without pending deletions whose values lie inside the format's limits (finite floating point,
+     no whitespace char values, property names without newline and not ending in a quote) - with persistent properties of
+     every serializable type on every entity kind, for polyhedral / tetrahedral / hexahedral meshes, topology check on
+     (for meshes that pass it) and off, bottom-up incidences on and off -
+        read_ascii (write_ascii m) = RTrue m1,  m1 = m up to the printed precision of floating point values,
+        read_ascii (write_ascii m1) = RTrue m1                      (the second round trip changes nothing)
+     under the single assumption  parse_d (print_d (parse_d (print_d x))) = parse_d (print_d x);
+     a mesh WITH pending deletions is refused or written as its logical content.
+   PROVED here: the statement for the topology (entity counts, every edge / face / cell definition handle for handle) and
+   the vertex positions, for polyhedral meshes read without topology check (any bottom-up setting): C06_ascii_roundtrip_partial.
+   The property sections (28 types x 7 kinds) and the tet / hex / topology-check configurations are covered by the lock step
+   and the write->read->write oracle on generated meshes, not by a theorem.
+   REFUTED (recorded findings, KNOWN_FINDINGS.json): the last sentence (C06_ascii_pending_refuted, D7) and the round trip of
+   values outside the format's limits (C06_ascii_format_limits_refuted, ascii-format-limits). *)
+From Coq Require Import ZArith Lia List String.
+From OVM Require Import Kernel.Ops.
 From OVM Require Import IO.AsciiStream IO.AsciiReaderModel IO.AsciiWriterModel IO.AsciiProofs.
-Theorem C06_ascii_skipws_consumes : forall l, (length (skipws l) <= length l)%nat.
-Proof. exact skipws_length. Qed.
-Print Assumptions C06_ascii_skipws_consumes.
+Import ListNotations.
+Local Open Scope Z_scope.
+
+(* Round trip, topology and positions.  [okf] is the set of bit patterns the printer prints as a numeral (the finite
+   values); the hypotheses say: a printed numeral is one blank-free token that does not start with '#', num_get's scanner
+   accepts exactly it, converting it does not set failbit, a reparsed value is printable again, and the recorded assumption
+   parse (print (parse (print x))) = parse (print x).  [wfw o w]: no pending deletions, finite coordinates, no properties,
+   polyhedral mesh read without topology check, every handle in range, valences >= 1, counts below 2^31 and allocatable.
+   Conclusion: both reads succeed; the first returns the topology of w handle for handle and the reparsed coordinates; the
+   second - of what the first returned - returns exactly the same topology and the same coordinates. *)
+Theorem C06_ascii_roundtrip_partial :
+  forall (conv_d conv_f : list byte -> Z * bool) (print_d print_f : Z -> list byte) (okf : Z -> Prop),
+  (forall b, okf b -> tokp (print_d b) /\ hd 0 (print_d b) <> 35) ->
+  (forall b r, okf b -> endsp r -> float_scan (print_d b ++ r) = (print_d b, r)) ->
+  (forall b, okf b -> snd (conv_d (print_d b)) = false) ->
+  (forall b, okf b -> okf (reparse conv_d print_d b)) ->
+  (forall b, okf b -> reparse conv_d print_d (reparse conv_d print_d b) = reparse conv_d print_d b) ->
+  forall (o : opts) (w : wmesh), wfw okf o w ->
+  exists f1 f2,
+    read_ascii conv_d conv_f o (write_ascii print_d print_f w) = RTrue f1 /\
+    read_ascii conv_d conv_f o (write_ascii print_d print_f (reread conv_d print_d w f1)) = RTrue f2 /\
+    topo (f_mesh f1) = topo (w_mesh w) /\
+    f_props f1 = [pos_entry (map (rp3 conv_d print_d) (w_pos w))] /\
+    topo (f_mesh f2) = topo (f_mesh f1) /\ f_props f2 = f_props f1.
+Proof. intros. eapply read_write_twice; eauto. Qed.
+Print Assumptions C06_ascii_roundtrip_partial.
+
+(* the mesh read back never has pending deletions (so it can be written again as it is) *)
+Theorem C06_ascii_read_has_no_deletions : forall conv_d conv_f (o : opts) (bytes : list byte) (f : fin),
+  read_ascii conv_d conv_f o bytes = RTrue f -> nodel (f_mesh f).
+Proof. intros. exact (read_stream_nodel conv_d conv_f o (of_bytes bytes) f H). Qed.
+Print Assumptions C06_ascii_read_has_no_deletions.
+
+(* integers: what operator<< prints, operator>> reads back, for every value of an unsigned type of width w, whatever
+   follows (the end of the line or a non-digit) *)
+Theorem C06_ascii_integer_roundtrip : forall (w n : Z) (r : list byte), 0 < w -> 0 <= n < 2 ^ w ->
+  (r = [] \/ exists c r', r = c :: r' /\ is_digit c = false) ->
+  extract_int w false (print_Z n ++ r) = (n, false, r).
+Proof. intros. apply extract_int_print; auto. Qed.
+Print Assumptions C06_ascii_integer_roundtrip.
+
+(* the size-capped map loop of the model is the literal `for (i < size)` loop *)
+Theorem C06_ascii_map_loop_cap : forall n s acc, 0 <= n -> deser_map_loop (Z.to_nat n) s acc = deser_map_loop (map_iters n s) s acc.
+Proof. exact deser_map_loop_cap. Qed.
+Print Assumptions C06_ascii_map_loop_cap.
+
+(* ------------------------------------------------------------------ refutations (computed witnesses) *)
+
+Definition ex_conv (l : list byte) : Z * bool := (0, false).
+Definition ex_print (b : Z) : list byte := [48].
+Definition ex_opts : opts := {| o_mesh := MPoly; o_check := false; o_bu := false; o_alloc := 4294967296 |}.
+
+(* one vertex, deferred-deleted, not collected *)
+Definition m_pending : mesh :=
+  {| nv := 1; edges := []; faces := []; cells := []; vdel := [true]; edel := []; fdel := []; cdel := [];
+     ndv := 1; nde := 0; ndf := 0; ndc := 0; vbu := true; ebu := true; fbu := true; deferred := true; fast := true;
+     out_hes := [[]]; inc_hfs := []; inc_cell := []; pv := []; pe := []; phe := []; pf := []; phf := []; pc := []; pm := [] |}.
+Definition w_pending : wmesh := {| w_mesh := m_pending; w_pos := [(0, 0, 0)]; w_props := [] |}.
+
+(* C06 last sentence ("a mesh with pending deletions is refused or written as its logical content") - the writer has no
+   way to refuse (writeStream is void), and what it writes does not read back: REFUTED (KNOWN_FINDINGS D7) *)
+Theorem C06_ascii_pending_refuted :
+  exists w, needs_gc (w_mesh w) = true /\
+            exists f, read_ascii ex_conv ex_conv ex_opts (write_ascii ex_print ex_print w) = RFalse f.
+Proof. exists w_pending. split; [reflexivity|]. eexists. vm_compute. reflexivity. Qed.
+Print Assumptions C06_ascii_pending_refuted.
+
+(* a char property holding a blank: written "A", " ", "B"; read back 'A', 'B', <default> *)
+Definition m_3v : mesh :=
+  {| nv := 3; edges := []; faces := []; cells := []; vdel := [false; false; false]; edel := []; fdel := []; cdel := [];
+     ndv := 0; nde := 0; ndf := 0; ndc := 0; vbu := true; ebu := true; fbu := true; deferred := true; fast := true;
+     out_hes := [[]; []; []]; inc_hfs := []; inc_cell := []; pv := []; pe := []; phe := []; pf := []; phf := []; pc := []; pm := [] |}.
+Definition w_charws : wmesh :=
+  {| w_mesh := m_3v; w_pos := [(0, 0, 0); (0, 0, 0); (0, 0, 0)];
+     w_props := [ {| p_kind := KV; p_name := [99]; p_type := TChar; p_persistent := true; p_vals := [VInt 65; VInt 32; VInt 66] |} ] |}.
+
+Theorem C06_ascii_format_limits_refuted :
+  exists w f, needs_gc (w_mesh w) = false /\
+    read_ascii ex_conv ex_conv ex_opts (write_ascii ex_print ex_print w) = RTrue f /\
+    (exists p, nth_error (f_props f) 1 = Some p /\ p_vals p = [VInt 65; VInt 66; VInt 0]) /\
+    (exists q, nth_error (w_props w) 0 = Some q /\ p_vals q = [VInt 65; VInt 32; VInt 66]).
+Proof.
+  exists w_charws. eexists. split; [reflexivity|]. split; [vm_compute; reflexivity|].
+  split; eexists; (split; [reflexivity|reflexivity]).
+Qed.
+Print Assumptions C06_ascii_format_limits_refuted.
+
+(* ------------------------------------------------------------------ non-vacuity of the round-trip theorem *)
+
+(* a printer/parser pair satisfying every hypothesis (on the single value 0), and a triangle satisfying wfw *)
+Definition ex_okf (b : Z) : Prop := b = 0.
+Definition m_tri : mesh :=
+  {| nv := 3; edges := [(0, 1); (1, 2); (2, 0)]%nat; faces := [[0; 2; 4]%nat]; cells := [];
+     vdel := [false; false; false]; edel := [false; false; false]; fdel := [false]; cdel := [];
+     ndv := 0; nde := 0; ndf := 0; ndc := 0; vbu := false; ebu := false; fbu := false; deferred := true; fast := true;
+     out_hes := []; inc_hfs := []; inc_cell := []; pv := []; pe := []; phe := []; pf := []; phf := []; pc := []; pm := [] |}.
+Definition w_tri : wmesh := {| w_mesh := m_tri; w_pos := [(0, 0, 0); (0, 0, 0); (0, 0, 0)]; w_props := [] |}.
+
+Example C06_ascii_roundtrip_hypotheses_satisfiable :
+  (forall b, ex_okf b -> tokp (ex_print b) /\ hd 0 (ex_print b) <> 35) /\
+  (forall b r, ex_okf b -> endsp r -> float_scan (ex_print b ++ r) = (ex_print b, r)) /\
+  (forall b, ex_okf b -> snd (ex_conv (ex_print b)) = false) /\
+  (forall b, ex_okf b -> ex_okf (reparse ex_conv ex_print b)) /\
+  (forall b, ex_okf b -> reparse ex_conv ex_print (reparse ex_conv ex_print b) = reparse ex_conv ex_print b) /\
+  wfw ex_okf ex_opts w_tri.
+Proof.
+  split; [|split; [|split; [|split; [|split]]]].
+  - intros b _. split; [split; [discriminate|repeat constructor]|discriminate].
+  - intros b r _ [->|(r' & ->)]; reflexivity.
+  - intros b _. reflexivity.
+  - intros b _. reflexivity.
+  - intros b _. reflexivity.
+  - constructor; try reflexivity.
+    + repeat constructor.
+    + split; cbn; lia.
+    + split; cbn; lia.
+    + split; cbn; lia.
+    + split; cbn; lia.
+    + repeat constructor; cbn; lia.
+    + repeat constructor; cbn; try lia; discriminate.
+    + constructor.
+Qed.
